@@ -1,6 +1,7 @@
 import Proofs.C01Mux
 import Proofs.C01Monitor
 import Proofs.C01Rx
+import Proofs.C01Own
 /-!
 # C01 — every response reaches the request that caused it, and only that one (property theorems)
 
@@ -204,5 +205,102 @@ example : ∃ fs src, (∀ f ∈ fs, Rx.Frame.wf 3 f) ∧ Rx.bytes src = Rx.enco
   · decide
   · simp only [Rx.Calm]; decide
   · decide
+
+/-! ## The connection's OWN requests and the sender's steps (`Model/MuxOwn.lean`, round 6)
+
+The heartbeat's OPTIONS, `USE`, PREPARE, REGISTER and user requests share the stream ids and the `c.calls` map of one
+connection; a call goes through reserve → register → write → writeReturned. Configuration `Cfg.code` = the code that
+exists: the call is registered BEFORE its frame is written, heartBeat does nothing on an ERROR answer. All theorems:
+every action list (any number of calls of any kind, any answer kinds, answers arriving while the sender is still
+inside Write, timeouts / cancellations / write failures / close at any point). -/
+
+/-- whatever a call is handed — user request or the connection's own — is the frame the peer sent FOR ITS stream id,
+    or an error of the connection that carries no frame: never a frame (response or ERROR) the peer addressed to another
+    request, neither as a response nor as an error value -/
+theorem C01_no_foreign_frame (cap : Nat) (as : List MuxOwn.Act) (st : MuxOwn.St)
+    (h : MuxOwn.run .code (MuxOwn.init cap) as = some st) (c : Nat) (o : MuxOwn.Outcome) (hd : st.pc c = .done o) :
+    (∀ f, o = .resp f → st.sent c = some f ∧ f.sid = st.sidOf c) ∧ (∀ e, o = .connErr e → e = .plain) := by
+  have inv := MuxOwn.inv_run as _ st (MuxOwn.inv_init cap) h
+  constructor
+  · intro f hf; subst hf; exact inv.resp_ok c f hd
+  · intro e he; subst he; exact inv.err_ok c e hd
+
+/-- closeWithError never runs with a frame of the peer as its error value -/
+theorem C01_close_error_is_no_frame (cap : Nat) (as : List MuxOwn.Act) (st : MuxOwn.St)
+    (h : MuxOwn.run .code (MuxOwn.init cap) as = some st) (e : MuxOwn.CErr) (hc : st.closed = some e) : e = .plain :=
+  (MuxOwn.inv_run as _ st (MuxOwn.inv_init cap) h).closed_plain e hc
+
+/-- in every state in which a frame for id `s` can arrive (the peer holds the request, or its answer is under way —
+    also while the sender has not come back from Write), a handler for `s` is registered: the call that sent it -/
+theorem C01_registered_before_written (cap : Nat) (as : List MuxOwn.Act) (st : MuxOwn.St)
+    (h : MuxOwn.run .code (MuxOwn.init cap) as = some st) (s c : Nat)
+    (hw : st.wire s = .pending c ∨ ∃ f, st.wire s = .answered c f) : st.reg s = some c := by
+  have inv := MuxOwn.inv_run as _ st (MuxOwn.inv_init cap) h
+  rcases hw with hw | ⟨f, hw⟩
+  · exact inv.wire_reg s c hw
+  · exact inv.wire_reg' s c f hw
+
+/-- … hence no answer is ever discarded for want of a handler -/
+theorem C01_no_response_lost (cap : Nat) (as : List MuxOwn.Act) (st : MuxOwn.St)
+    (h : MuxOwn.run .code (MuxOwn.init cap) as = some st) (c : Nat) : st.lost c = false :=
+  (MuxOwn.inv_run as _ st (MuxOwn.inv_init cap) h).not_lost c
+
+/-- … and the receive loop, holding the whole answer for `s`, is never without a move for ever: the registered call
+    is in Write (it will come back), waiting (hand-over) or has given up (release) -/
+theorem C01_answer_has_receiver (cap : Nat) (as : List MuxOwn.Act) (st : MuxOwn.St)
+    (h : MuxOwn.run .code (MuxOwn.init cap) as = some st) (s c : Nat) (f : MuxOwn.Frame)
+    (hw : st.wire s = .answered c f) :
+    st.reg s = some c ∧ st.pc c ≠ .idle ∧ (∀ s' r wr ret, st.pc c = .flight s' r wr ret → s' = s ∧ r = true) := by
+  have inv := MuxOwn.inv_run as _ st (MuxOwn.inv_init cap) h
+  have hr := inv.wire_reg' s c f hw
+  have := inv.reg_pc s c hr
+  exact ⟨hr, this.2.2.1, this.2.2.2.1⟩
+
+/-- the code that exists: heartBeat's reaction to an ERROR answer changes nothing (the `TODO` arm) -/
+theorem C01_heartbeat_error_ignored (st st' : MuxOwn.St) (c : Nat) (f : MuxOwn.Frame)
+    (hp : st.pc c = .done (.resp f)) (hk : f.kind = 1)
+    (hs : MuxOwn.step .code st (.hbReact c) = some st') : st'.closed = st.closed ∧ st'.pc = st.pc := by
+  simp only [MuxOwn.step, hp, MuxOwn.Cfg.code, hk] at hs
+  split at hs
+  · injection hs with hs; subst hs; simp
+  · simp at hs
+
+/-- Counterexample for the variant that registers the call only AFTER the write has returned (seeded change C01-5):
+    the peer answers before Write returns, the receive loop finds no handler and discards the answer; the call then
+    registers and waits for an answer that will never come (nothing is left on the wire). Replay: `dr 3 0 0 !q5 d1 w1`. -/
+theorem C01_cex_register_after_write :
+    ∃ st, MuxOwn.run { lateRegister := true, hbErrFatal := false } (MuxOwn.init 128)
+        [.reserve 1 5 .user, .write 1, .answer 5 0 1, .deliver 5, .writeReturned 1, .register 1] = some st ∧
+      st.lost 1 = true ∧ st.pc 1 = .flight 5 true true true ∧ st.wire 5 = .none := by
+  refine ⟨_, rfl, ?_, ?_, ?_⟩ <;> decide
+
+/-- Counterexample for the variant in which heartBeat treats an ERROR answer as fatal and closes the connection with
+    that frame as the error value (seeded change C01-6): user call 1 (stream 5) is handed the ERROR frame that the peer
+    addressed to the heartbeat's stream 6. Replay: `dr 3 0 1 q5 h A2:E4097 h`. -/
+theorem C01_cex_heartbeat_error_fatal :
+    ∃ st, MuxOwn.run { lateRegister := false, hbErrFatal := true } (MuxOwn.init 128)
+        [.reserve 1 5 .user, .register 1, .write 1, .writeReturned 1,
+         .reserve 2 6 .heartbeat, .register 2, .write 2, .writeReturned 2,
+         .answer 6 1 77, .deliver 6, .hbReact 2, .connDone 1] = some st ∧
+      st.pc 1 = .done (.connErr (.frame ⟨6, 1, 77⟩)) ∧ st.sidOf 1 = 5 := by
+  refine ⟨_, rfl, ?_, ?_⟩ <;> decide
+
+/-- non-vacuity (the code that exists): the same two histories end well — the answer that arrives while the sender is
+    inside Write waits for it and is handed over; the heartbeat's ERROR answer leaves the user call waiting, which then
+    gets its own response -/
+example : ∃ st, MuxOwn.run .code (MuxOwn.init 128)
+    [.reserve 1 5 .user, .register 1, .write 1, .answer 5 0 1, .writeReturned 1, .deliver 5] = some st ∧
+    st.pc 1 = .done (.resp ⟨5, 0, 1⟩) ∧ st.lost 1 = false ∧ st.owner 5 = none := by
+  refine ⟨_, rfl, ?_, ?_, ?_⟩ <;> decide
+
+example : MuxOwn.step .code ((MuxOwn.run .code (MuxOwn.init 128)
+    [.reserve 1 5 .user, .register 1, .write 1, .answer 5 0 1]).getD (MuxOwn.init 0)) (.deliver 5) = none := by decide
+
+example : ∃ st, MuxOwn.run .code (MuxOwn.init 128)
+    [.reserve 1 5 .user, .register 1, .write 1, .writeReturned 1,
+     .reserve 2 6 .heartbeat, .register 2, .write 2, .writeReturned 2,
+     .answer 6 1 77, .deliver 6, .hbReact 2, .answer 5 0 9, .deliver 5] = some st ∧
+    st.pc 1 = .done (.resp ⟨5, 0, 9⟩) ∧ st.closed = none := by
+  refine ⟨_, rfl, ?_, ?_⟩ <;> decide
 
 end C01
